@@ -1506,7 +1506,7 @@ void CDNS::IndexListItem::read(CdnsDecoder& dec)
     reset();
     bool indef = false;
     uint64_t length = dec.read_array_start(indef);
-    list.reserve(length);
+    list.reserve(length < CdnsDecoder::BUFFER_SIZE ? length : CdnsDecoder::BUFFER_SIZE);
 
     while (length > 0 || indef) {
         if (indef && dec.peek_type() == CborType::BREAK) {
